@@ -9104,17 +9104,25 @@ S_<TN_, TA_, EmptyT<TA_>>::deepExit(PlanControl& HFSM2_IF_LOG_STATE_METHOD(contr
 template <typename TN_, typename TA_>
 HFSM2_CONSTEXPR(14)
 void
-S_<TN_, TA_, EmptyT<TA_>>::wrapPlanSucceeded(FullControl& HFSM2_IF_LOG_STATE_METHOD(control)) noexcept {
+S_<TN_, TA_, EmptyT<TA_>>::wrapPlanSucceeded(FullControl& control) noexcept {
 	HFSM2_LOG_STATE_METHOD(&Empty::planSucceeded,
 						   Method::PLAN_SUCCEEDED);
+
+	ScopedOrigin origin{control, STATE_ID};
+
+	control.succeed();
 }
 
 template <typename TN_, typename TA_>
 HFSM2_CONSTEXPR(14)
 void
-S_<TN_, TA_, EmptyT<TA_>>::wrapPlanFailed(FullControl& HFSM2_IF_LOG_STATE_METHOD(control)) noexcept {
+S_<TN_, TA_, EmptyT<TA_>>::wrapPlanFailed(FullControl& control) noexcept {
 	HFSM2_LOG_STATE_METHOD(&Empty::planFailed,
 						   Method::PLAN_FAILED);
+
+	ScopedOrigin origin{control, STATE_ID};
+
+	control.fail();
 }
 
 #endif
